@@ -11,6 +11,7 @@ def tri (f : Nat → Char) (x : Nat) : String := String.ofList [f (x - 1), f x, 
 def isTimerFired : LogE → Bool | .tfired .. => true | _ => false
 def isDropped : LogE → Bool | .dropped .. => true | _ => false
 def timerFiredBy : LogE → Nat → Bool | .tfired p _, q => p == q | _, _ => false
+def involvedIn : LogE → Nat → Bool | .recv _ src dst, q => src == q || dst == q | _, _ => false
 
 def predBattery (s : Sys) : String :=
   let D := s.depth
@@ -27,6 +28,7 @@ def predBattery (s : Sys) : String :=
   let dr := countTrace isDropped tr
   let pnames := procs.map (·.2)
   let mtf := (pnames.map fun q => countTrace (fun e => timerFiredBy e q) tr).foldl max 0
+  let mi := (pnames.map fun q => countTrace (fun e => involvedIn e q) tr).foldl max 0
   let zz : List Nat := [122, 122]
   let items : List String := [
     "isd=" ++ tri (fun d => b2c (Pred.invStateDepth d sT)) D,
@@ -44,6 +46,7 @@ def predBattery (s : Sys) : String :=
     "psm=" ++ tri (fun k => b2c (Pred.sentMessagesLimit k sT)) mx,
     "pel=" ++ tri (fun k => b2c (Pred.eventsLimit isDropped k sT)) dr,
     "pep=" ++ tri (fun k => b2c (Pred.eventsLimitPerProc timerFiredBy pnames k sT)) mtf,
+    "pei=" ++ tri (fun k => b2c (Pred.eventsLimitPerProc involvedIn pnames k sT)) mi,
     "ppp=" ++ String.ofList [ob2c (Pred.procPermutations pnames sT), ob2c (Pred.procPermutations pnames.reverse sT)],
     -- processes in the order of their first mention (sender of a received message, owner of a fired timer) in the current run
     "fm=" ++ ".".intercalate (((currentRunTrace tr).foldl (fun (acc : List Nat) e =>
